@@ -167,7 +167,7 @@ func runC14(t *testing.T, c Case) (res Result) {
 				ctx := context.Background()
 				if realCtx[i] > 0 {
 					var cancel context.CancelFunc
-					ctx, cancel = context.WithTimeout(ctx, time.Duration(realCtx[i])*time.Millisecond)
+					ctx, cancel = simTimeoutCtx(ctx, time.Duration(realCtx[i])*time.Millisecond)
 					defer cancel()
 				}
 				k := fmt.Sprintf("key-%d", key)
@@ -515,7 +515,7 @@ func runC28(t *testing.T, c Case) (res Result) {
 							cancel()
 							ctx = cctx
 						case 4:
-							cctx, cancel := context.WithTimeout(ctx, time.Millisecond)
+							cctx, cancel := simTimeoutCtx(ctx, time.Millisecond)
 							defer cancel()
 							ctx = cctx
 						}
